@@ -14,6 +14,7 @@ def claim(pid, text, note, ref):
     CLAIMED[pid] = dict(text=text, note=note, ref=ref)
 
 ENABLED = None
+THOROUGH = None
 exec(open(os.path.join(HERE, 'tools', 'claims.py')).read())
 if ENABLED is not None:
     for k in list(CLAIMED):
@@ -29,7 +30,7 @@ for pid in ALL:
     checks.append(dict(
         property_id=pid,
         quick_cmd='./check %s --tier quick' % pid,
-        thorough_cmd='./check %s --tier thorough' % pid,
+        **(dict(thorough_cmd='./check %s --tier thorough' % pid) if (THOROUGH is None or pid in THOROUGH) else {}),
         evidence_file='evidence/%s.json' % pid,
         replay_cmd_template='./check %s --replay {path}' % pid,
         engine='crosshair',
